@@ -117,7 +117,8 @@ def newDateTime (ticks : UInt64) : KcTime :=
     let t := goUnix ((ticks / 10000000).toInt64 - 11644473600) ((ticks % 10000000).toInt64 * 100)
     .at ticks t.1 t.2
 
-/-- `ConvertFromBinaryTime`: `binary.LittleEndian.Uint64(raw)` (panics on fewer than 8 bytes); a
+/-- `ConvertFromBinaryTime`: `binary.LittleEndian.Uint64(raw)`; fewer than 8 bytes read as tick 0
+    (after `fixes/C07-keycredential-binarytime-short.diff`; the function has no error result); a
     stored zero stays tick 0 = 1601-01-01 (it does not go through `NewDateTime`'s "now" branch);
     otherwise `NewDateTime` on every version/source branch -/
 def convertFromBinaryTime (raw : Bytes) : Outcome KcTime :=
@@ -125,7 +126,7 @@ def convertFromBinaryTime (raw : Bytes) : Outcome KcTime :=
   | b0 :: b1 :: b2 :: b3 :: b4 :: b5 :: b6 :: b7 :: _ =>
     let ticks := le64 b0 b1 b2 b3 b4 b5 b6 b7
     if ticks == 0 then .ok (.at 0 (-11644473600) 0) else .ok (newDateTime ticks)
-  | _ => .panic
+  | _ => .ok (.at 0 (-11644473600) 0)
 
 /-- `ConvertToBinaryTime` (patched): `uint64(date.Unix()+11644473600)*1e7 + uint64(date.Nanosecond()/100)`, little endian -/
 def binaryTimeTicks (sec nsec : Int64) : UInt64 :=
